@@ -226,11 +226,19 @@ def anchors(P):
     for f in P.fns.values():
         if not f.path.startswith(SEM) or "::tests::" in f.path or f.kind not in ("Fn", "AssocFn") or f.derived:
             continue
-        if f.path not in P.callees_of(f)[0]:
-            continue
+        callees = {c for c in P.callees_of(f)[0] if c.startswith(SEM)}
+        if f.path not in callees and not any(f.path in P.callees_of(P.fns[c])[0] for c in callees if c in P.fns):
+            continue        # neither directly recursive nor recursive through one helper
         names = {call_name(n) or "" for n in inlined(P, f).walk() if n.get("k") in ("Call", "MethodCall")}
         if any(c.endswith("OperationResolver::resolve") for c in names) and any(c.endswith("resolve_relative_path") for c in names):
             cands.append(f)
+    if len(cands) > 1:
+        # a traversal split over mutually recursive functions: the one that is entered from outside
+        cyc = {f.path for f in cands}
+        outer = [f for f in cands if any(f.path in P.callees_of(g)[0] for g in P.fns.values()
+                                          if g.path.startswith(SEM) and g.path not in cyc and "::tests::" not in g.path
+                                          and not any(g.path in P.callees_of(c)[0] for c in cands))]
+        cands = outer or cands
     if len(cands) != 1:
         raise AnchorMissing("import traversal (directly recursive fn of the semantics crate calling resolve_relative_path and "
                             "OperationResolver::resolve): %d candidates" % len(cands))
@@ -520,7 +528,8 @@ def r13b(P, R):
         if is_vis(A, c, TESTS + MARKS) or cn.endswith("OperationResolver::resolve"):
             n += 1
             a = pv.deep_atoms(c["args"][0])
-            ok = has_call(a, "relative_path::resolve_relative_path")
+            # the resolved path of the import, or the traversal's own file (which recursion-root shows to be a resolved path)
+            ok = has_call(a, "relative_path::resolve_relative_path") or any(("param", p) in a for p in A.importer)
             R.check("R13-b", "key:%s" % c["method"], ok, "`%s` is keyed by the normalised resolved path" % c["method"],
                     "`%s` in the import traversal is not keyed by resolve_relative_path(..): differently spelled paths to one "
                     "file are treated as different files" % c["method"], loc=rec.loc())
@@ -710,6 +719,39 @@ def fragment_tests(nodes):
     return ("unknown",) if tests else ("only",)
 
 
+FILLS = ("insert", "push", "push_back", "push_front", "extend", "append", "entry", "extend_from_slice")
+
+
+def filled_atoms(T, pv, exprs):
+    """atoms that reach the given expressions through local collections that are *filled by method calls* (`let mut seen =
+    HashSet::new(); for .. { seen.insert(x) }` — Prov follows `let`/assignment, not mutation through `&mut self`): the
+    arguments of every filling call on a local the expressions (transitively) mention"""
+    locals_, todo, out = set(), list(exprs), set()
+    fills = {}
+    for n in T.walk():
+        if n.get("k") == "MethodCall" and n["method"] in FILLS and n["args"] and EXDEF not in norm(n.get("recv_ty") or ""):
+            # (the accumulated definitions are shared state, not a local scratch collection)
+            r = strip(n["recv"])
+            while r is not None and r.get("k") in ("AddrOf", "Unary"):
+                r = strip(r.get("e"))
+            if r is not None and r.get("k") == "Path" and "local" in r:
+                fills.setdefault(r["local"], []).extend(n["args"])
+    seen = set()
+    while todo:
+        e = todo.pop()
+        if e is None or id(e) in seen:
+            continue
+        seen.add(id(e))
+        for x in subnodes(e):
+            if x.get("k") == "Path" and "local" in x and x["local"] not in locals_:
+                locals_.add(x["local"])
+                todo.extend(src for src, _ in pv.src.get(x["local"], []) if src is not None)
+                for a in fills.get(x["local"], []):
+                    out |= pv.atoms(a)
+                    todo.append(a)
+    return out
+
+
 def diag_exists(P, rec, variant):
     """is there (still) an enum of the semantics crate with a variant of this name"""
     return any(variant in a.variant_names() for p, a in P.adts.items() if p.startswith(SEM) and a.kind == "Enum")
@@ -810,6 +852,7 @@ def r13c(P, R):
                 # FragmentNotFound is decided against the imported file's own definitions, not against what has been collected so far
                 for j in errs:
                     a = guard_atoms(pv, guards_of(T, j, stop=body.get("synthetic") or body))
+                    a |= filled_atoms(T, pv, [g["e"] for g in guards_of(T, j, stop=body.get("synthetic") or body)])
                     from_imported = has_call(a, "OperationResolver::resolve") and has_field(a, "nitrogql_ast::operation::OperationDocument", "definitions")
                     # ... *read* from the accumulated list (a write to it in a sibling branch is not a dependency of the verdict)
                     from_acc = has_defs(A, a) and any(
@@ -845,6 +888,45 @@ def r13c(P, R):
         R.undecided("R13-c", "append-once", "the appends (%s) are not seen to run only on the first visit of a file" % unknown, loc=loc)
     elif appends_all:
         R.holds("R13-c", "append-once", "appends run only on the first visit of a file (they are only reached when the visited-check says so)")
+    # a file whose fragments are appended has been marked visited on that very path: before every append there is, unconditionally,
+    # a marking keyed by the imported file — or a descent into the file, when the traversal marks its own file on entry — unless
+    # the append is individually guarded by a membership test.  Otherwise a second route to the file appends its fragments again.
+    own_mark = any(is_vis(A, c, MARKS) and c["args"] and any(("param", p) in pv.atoms(c["args"][0]) for p in A.importer)
+                   and not has_call(pv.atoms(c["args"][0]), "resolve_relative_path")
+                   and not [g for g in guards_of(T, index_of(T, c)) if g["kind"] in ("cond", "pat", "arm")] for c in T.walk())
+
+    def marks_file(x):
+        if is_vis(A, x, MARKS) and x["args"] and has_call(pv.deep_atoms(x["args"][0]), "resolve_relative_path"):
+            return True
+        return own_mark and x.get("k") in ("Call", "MethodCall") and call_name(x) == rec.path
+
+    def marked_before(j):
+        child, p = j, acc[j][1]
+        while p >= 0:
+            n = acc[p][0]
+            if n.get("k") == "Block":
+                for st in n.get("stmts", []):
+                    if st is acc[child][0] or _within(st, acc[child][0]):
+                        break
+                    for x in subnodes(st):
+                        if marks_file(x) and not [g for g in guards_of(T, index_of(T, x), stop=st) if g["kind"] in ("cond", "pat", "arm")]:
+                            return True
+            child, p = p, acc[p][1]
+        return False
+    unmarked = []
+    for j in appends_all:
+        conds = [g["e"] for g in guards_of(T, j) if g["kind"] == "cond"]
+        if any(y.get("k") == "MethodCall" and y["method"] in ("insert", "contains", "contains_key") and "std::collections" in norm(y.get("callee") or "")
+               and not is_vis(A, y) for c in conds for y in subnodes(c)):
+            continue        # per-definition record
+        if not marked_before(j):
+            unmarked.append(acc[j][0]["method"])
+    if appends_all and not unmarked:
+        R.holds("R13-c", "append-marked", "the fragments of a file are only appended after the file was marked visited", loc=loc)
+    elif unmarked:
+        R.violated("R13-c", "append-marked", "the appends (%s) can be reached without the imported file having been marked visited on that path "
+                   "(the marking / the descent that marks it is conditional or missing): a file reached again through another import "
+                   "(diamond) is not recognised as visited and its fragments are appended a second time" % unmarked, loc=loc)
     # error for a dangling file: FileNotFound is constructed under a condition on the resolver's answer
     errs = [(j, x) for j, (x, _) in enumerate(acc) if x.get("k") == "Struct" and "rest" not in x and norm(x.get("variant", "")).endswith("FileNotFound")]
     if not errs and not diag_exists(P, rec, "FileNotFound"):
@@ -1154,10 +1236,26 @@ def r13f(P, R):
             scope[g.path] = g
     R.floor("R13-f", "functions that build a resolver / call the import resolution", len(scope), 1)
     bad = []
+    ri = [i for i, t in enumerate(entry.sig_inputs) if "OperationResolver" in t]
     for g in scope.values():
         gi = inlined(P, g, pred=pred)
         gp = Prov(gi)
-        for x in gi.walk():
+        # what the resolver is made of: the constructions of a resolver value, and the resolver argument of the entry point
+        # (post-processing of the *resolved* document is not import resolution)
+        roots = [x for x in gi.walk() if x.get("k") == "Struct" and "rest" not in x and norm(x.get("adt") or "").split("<")[0] in adts]
+        roots += [x for x in gi.walk() if x.get("k") == "Call" and norm(x.get("callee") or "").split("<")[0].rsplit("::", 1)[0] in adts]
+        for c in gi.walk():
+            if c.get("k") == "Call" and call_name(c) == entry.path:
+                roots += [c["args"][i] for i in ri if i < len(c["args"])]
+        seen_l, todo, nodes = set(), list(roots), []
+        while todo:
+            e = todo.pop()
+            for x in subnodes(e):
+                nodes.append(x)
+                if x.get("k") == "Path" and "local" in x and x["local"] not in seen_l:
+                    seen_l.add(x["local"])
+                    todo.extend(src for src, _ in gp.src.get(x["local"], []) if src is not None)
+        for x in nodes:
             if x.get("k") == "MethodCall" and x["method"] in NARROWING and x["args"] and \
                     has_field(gp.atoms(x["args"][0]), "nitrogql_ast::operation::OperationDocument", "definitions"):
                 bad.append((g, x["method"]))
@@ -1168,6 +1266,27 @@ def r13f(P, R):
                    "it is reported as FileNotFound" % (g.path, m), loc=g.loc())
     else:
         R.holds("R13-f", "resolver-index", "no document is left out of a resolver's index because of what it defines (%d functions)" % len(scope))
+    # (1b) "file not found exactly when the file is not among the configured documents": a resolver looks the requested path up
+    # as it is; a second lookup under a rewritten path (other extension, file name only, parent ...) makes an import of a file that
+    # is not configured silently resolve to another file
+    REWRITES = ("with_extension", "with_file_name", "set_extension", "set_file_name", "file_name", "file_stem", "parent", "join", "push", "pop",
+                "strip_prefix", "ancestors", "to_lowercase", "to_uppercase", "to_ascii_lowercase", "to_ascii_uppercase", "trim_start_matches",
+                "trim_end_matches", "replace")
+    rewritten = []
+    for f in impls:
+        fi = inlined(P, f)
+        fp = Prov(fi)
+        asked = {fp.params[b["local"]] for p in fi.params[1:] for b in subnodes(p) if b.get("k") == "Binding" and b["local"] in fp.params}
+        for x in fi.walk():
+            if x.get("k") == "MethodCall" and x["method"] in REWRITES and any(("param", a) in fp.atoms(x["recv"]) for a in asked) \
+                    and ("path::Path" in norm(x.get("callee") or "") or "str" in norm(x.get("callee") or "") or "OsStr" in norm(x.get("callee") or "")):
+                rewritten.append((f, x["method"]))
+    if rewritten:
+        f, m = rewritten[0]
+        R.violated("R13-f", "resolver-key", "%s also looks the requested file up under a rewritten path (`%s`): an import of a file that is not among "
+                   "the configured documents resolves to a different file instead of being reported as FileNotFound" % (f.path, m), loc=f.loc())
+    elif impls:
+        R.holds("R13-f", "resolver-key", "resolvers look up exactly the requested path (%d impls)" % len(impls))
     # (2) a binary search over the names of an import presupposes that every Import is constructed with a sorted list
     if A is None:
         reach = [P.fns[p] for p in P.reachable([entry]) if p.startswith(SEM)]
